@@ -1,7 +1,7 @@
 SPECIFICATION Spec
 CONSTANTS
   Part = "index"
-  MaxLen = 5
+  MaxLen = 4
   VMag = 6
   Mixed = FALSE
   Dump = TRUE
